@@ -480,9 +480,11 @@ def reference_row(row) -> dict:
     elif t == "save_value":
         act = {"type": "set_contact_field", "field": {"name": row.save_name, "key": field_key(row.save_name)}, "value": row.mainarg_value}
     elif t == "add_to_group":
-        act = {"type": "add_contact_groups", "groups": [{"name": row.mainarg_groups[0]}]}
+        # every listed group: the first as written, further blank entries skipped
+        act = {"type": "add_contact_groups", "groups": [{"name": row.mainarg_groups[0]}] + [{"name": g} for g in row.mainarg_groups[1:] if g]}
     elif t == "remove_from_group":
-        act = {"type": "remove_contact_groups", "groups": [{"name": row.mainarg_groups[0]}]}
+        # every listed group: the first as written, further blank entries skipped
+        act = {"type": "remove_contact_groups", "groups": [{"name": row.mainarg_groups[0]}] + [{"name": g} for g in row.mainarg_groups[1:] if g]}
     elif t == "save_flow_result":
         act = {"type": "set_run_result", "name": row.save_name, "value": row.mainarg_value}
         if row.result_category:
